@@ -29,7 +29,8 @@ RULE = (
     "with an inner DEFAULT selection (a drawn subset of its outputs, possibly empty): the outer graph declares and returns exactly the "
     "outside outputs plus the selected ones, with the reference values. Part D: structured loops (C04's generator) with an upstream node "
     "excluded by 1-3 entry points that all lie on the one cycle (one call or chained): the upstream node never runs and the result equals "
-    "the sequential loop on the caller's values. Non-trivial = an entry point that "
+    "the sequential loop on the caller's values. Part E: a name that one exclusive branch emits as an ordering signal and the other "
+    "produces as data (flat, nested, mapped): the data value is returned when the data branch ran, nothing (never the sentinel) otherwise. Non-trivial = an entry point that "
     "excludes >=1 runnable upstream node together with a selection that drops >=1 produced output."
 )
 ASSUMPTIONS = ["a caller-supplied upstream name that is also a declared output may be returned (the statement allows declared outputs)"]
@@ -39,6 +40,11 @@ ROUTING_KEY = "__routing_decision__"
 
 @st.composite
 def _case(draw, tier):
+    if prob(draw, 0.06):
+        # Part E: one name that is an ordering SIGNAL of one exclusive branch and a DATA output of the other
+        return {"part": "E", "gate": draw(st.sampled_from(["ifelse", "route"])), "take_signal_branch": draw(st.booleans()), "order": draw(st.permutations([0, 1, 2, 3])),
+                "nested": draw(st.booleans()), "select": draw(st.sampled_from([None, "**", "final_result"])), "runner": draw(st.sampled_from(["sync", "async"])),
+                "map": draw(st.booleans()), "data_first": draw(st.booleans())}
     if prob(draw, 0.1):
         # Part D: entry points on a CYCLE (a structured loop with an excluded upstream node), incl. several on the same cycle
         from .c04 import _case as loop_case
@@ -273,7 +279,67 @@ def _part_d(case, ev):
     ev.case(case, len(entry) > 1 and iters >= 1, sorted(labels))
 
 
+def _part_e(case, ev):
+    sig = case["take_signal_branch"]
+    fast = {"k": "func", "name": "fast", "params": ["n"], "defaults": {}, "outs": ["result"], "emit": ["aud"]}
+    slow = {"k": "func", "name": "slow", "params": ["n"], "defaults": {}, "outs": ["result", "aud"] if not case["data_first"] else ["aud", "result"]}
+    fin = {"k": "func", "name": "fin", "params": ["result"], "defaults": {}, "outs": ["final"], "wait_for": ["aud"]}
+    if case["gate"] == "ifelse":
+        gate = {"k": "ifelse", "name": "pick", "params": ["n"], "defaults": {}, "t": "fast", "f": "slow", "table": [bool(sig)], "default_open": True}
+    else:
+        gate = {"k": "route", "name": "pick", "params": ["n"], "defaults": {}, "targets": ["fast", "slow"], "fallback": None, "multi": False, "table": ["fast" if sig else "slow"], "default_open": True}
+    inner = [[gate, fast, slow, fin][i] for i in case["order"]]
+    nodes = inner
+    if case["nested"]:
+        nodes = [{"k": "graph", "name": "branches", "graph": {"nodes": inner, "name": "branches"}}, {"k": "func", "name": "shout", "params": ["final"], "defaults": {}, "outs": ["loud"]}]
+    ctx = Ctx()
+    g = make_graph(ctx, {"nodes": nodes}, "sync")
+    vals = {"n": ("in", "n", 0)}
+    taken = fast if sig else slow
+    env = ref.out_terms(taken, (vals["n"],))
+    env.update(ref.out_terms(fin, (env["result"],)))
+    if case["nested"]:
+        env["loud"] = ("shout", 0, (env["final"],))
+    kw = {}
+    if case["select"] == "**":
+        kw["select"] = "**"
+    elif case["select"] == "final_result":
+        kw["select"] = ["final", "result"]
+        env = {k: v for k, v in env.items() if k in ("final", "result")}
+    tag = f"part E {case['runner']} {'signal' if sig else 'data'} branch taken, nested={case['nested']} select={case['select']!r}"
+    outs_ = []
+    out, _ = _run(case["runner"], g, vals, **kw)
+    outs_.append(("run", out))
+    if case["map"]:
+        import asyncio as _aio
+
+        from hypergraph import AsyncRunner, SyncRunner
+
+        from ..observe import _outcome
+        with warnings.catch_warnings():
+            warnings.simplefilter("ignore")
+            if case["runner"] == "sync":
+                res = SyncRunner().map(g, {"n": [vals["n"], vals["n"]]}, map_over="n", **kw)
+            else:
+                res = _aio.run(AsyncRunner().map(g, {"n": [vals["n"], vals["n"]]}, map_over="n", **kw))
+        outs_ += [(f"map[{i}]", _outcome(r)) for i, r in enumerate(res)]
+    for which, o in outs_:
+        if o.status != "completed":
+            raise Violation("c16.status", f"[{tag} {which}] {o.brief()}")
+        # `aud` IS a declared data output of the graph (the other branch produces it), so the name filter does not apply: what must
+        # never come back is the sentinel VALUE that stands for it when only the signal was produced
+        for k, v in o.values.items():
+            if type(v).__name__ == "_EmitSentinel" or type(v) is object:
+                raise Violation("c16.sentinel_value", f"[{tag} {which}] result value under {k!r} is an ordering sentinel object: only the signal-emitting branch ran, {k!r} has no data value", key_kind="emit_and_data")
+        if o.values != env:
+            diff = {k: (J(o.values.get(k, "<absent>")), J(env.get(k, "<absent>"))) for k in set(o.values) | set(env) if o.values.get(k, "<absent>") != env.get(k, "<absent>")}
+            raise Violation("c16.signal_or_data_values", f"[{tag} {which}] (got, expected) {diff}")
+    ev.case(case, sig, sorted({"part:E", "name_is_signal_and_data", "branch:" + ("signal" if sig else "data"), f"runner:{case['runner']}"} | ({"nested"} if case["nested"] else set())))
+
+
 def check_case(case, ev):
+    if case["part"] == "E":
+        return _part_e(case, ev)
     if case["part"] == "D":
         return _part_d(case, ev)
     if case["part"] == "B":
